@@ -17,6 +17,8 @@ impl PathBuf {
     pub fn components(&self) -> (r: Vec<Component>) ensures r@ == self@ { unimplemented!() }
     #[verifier::external_body]
     pub fn to_path_buf(&self) -> (r: PathBuf) ensures r@ == self@ { unimplemented!() }
+    #[verifier::external_body]
+    pub fn clone(&self) -> (r: PathBuf) ensures r@ == self@ { unimplemented!() }
     /// PathBuf::push of ONE normal component (what the code passes): appended at the end
     #[verifier::external_body]
     pub fn push(&mut self, part: VOsStr) ensures final(self)@ == old(self)@.push(Component::Normal(part)) { unimplemented!() }
